@@ -561,9 +561,17 @@ func c14Sleep(ms int) {
 
 // ---- run ------------------------------------------------------------------------------
 
+// c14Abandoned: the case ended with both scripts blocked in Send (inconclusive); the
+// bubble cannot exit cleanly then.
+var c14Abandoned bool
+
 func runC14(t *testing.T, c c14Case, st *drv.Stats) (fail *drv.Failure) {
+	c14Abandoned = false
 	defer func() {
 		if p := recover(); p != nil && fail == nil {
+			if c14Abandoned && strings.Contains(fmt.Sprint(p), "blocked goroutines remain") {
+				return // the two scripts that block each other are abandoned with the bubble
+			}
 			fail = drv.Failf("panic", firstLineC14(fmt.Sprint(p)), "panic: %v", p)
 		}
 	}()
@@ -748,6 +756,16 @@ func runC14In(c c14Case, st *drv.Stats, bubble bool) (fail *drv.Failure) {
 			return f
 		}
 		sig, msg := c14Stuck(h)
+		if sig == "handler-send-blocked:handler-running+client-send-blocked:handler-running" {
+			// Both scripts are in Send and neither has returned: each direction holds
+			// as much as the connection buffers. No transport promises unbounded
+			// buffering, so this is the two scripts' own making; the planner, which works
+			// with an estimate of those buffers, let it through.
+			st.Inconcl("scripts_block_each_other_in_send")
+			c14Abandoned = true
+			go c14Cleanup(tr, cancel, clientStream)
+			return nil
+		}
 		stacks := ""
 		if dl, ok := runErr.(*sim.ErrDeadlock); ok && os.Getenv("VERIF_C14_STACKS") != "" {
 			stacks = "\ngoroutines of the bubble:\n" + dl.Stacks
